@@ -46,7 +46,11 @@ import LitexProofs.Axi.WidthConvMem
   axi_common BURST_* encodings           | BURST_* (Burst2Beat.lean)          | -                              | constants_check
   axi_common AXSIZE table (32 -> 0b110,  | not modelled: unused by the code   | -                              | -
     64 -> 0b111: wrong, but unused)      |                                    |                                |
-  AXI2AXILite burst expansion            | belongs to C09 (uses Burst2Beat)   | C09: axi2axl_partial           | C09
+  AXI2AXILite / AXI2Wishbone: the only   | userCaps (capability set passed),  | effBurst_eq_iff,               | E: caps read at
+    in-tree instantiation of             |  Caps.serves (BurstSpec.lean); the | user_b2b_beats (+ reduced-caps | elaboration vs
+    AXIBurst2Beat (default capabilities) |  bridge FSM itself belongs to C09  | witness); C09: axi2axl_partial | userCaps; FIXED/
+                                         |                                    |                                | INCR/WRAP bursts
+                                         |                                    |                                | into real SRAMs
   AXIRemapper/Timeout/Arbiter/Decoder/…  | other properties (C08/C11)         |                                |
   ------------------------------------------------------------------------------------------------------------------
 -/
@@ -451,6 +455,65 @@ example :
     let r : Req := ⟨0x2000, 32, 7, BURST_INCR, 0⟩
     (b2bNext Caps.all 16 ⟨31, 3968⟩ ⟨true, r, true⟩) = ⟨32, -4096⟩ ∧ beatAddr 16 r ⟨32, -4096⟩ = 0x1000 ∧
     axiSpecAddr 0x2000 32 7 BURST_INCR 32 = 0x3000 ∧ ¬ Legal 16 r BURST_INCR := by decide
+
+/-! ### AXIBurst2Beat inside its users: the capability set -/
+
+/-- `effBurst_eq_iff`: the module expands a burst of type FIXED/INCR/WRAP as that type **iff** the type is in the
+    capability set it was built with (otherwise: as FIXED) - the dependence every user of the module inherits. -/
+theorem effBurst_eq_iff (caps : Caps) (b : Nat) (hb : b = BURST_FIXED ∨ b = BURST_INCR ∨ b = BURST_WRAP) :
+    effBurst caps b = b ↔ caps.serves b = true := by
+  obtain ⟨i, w⟩ := caps
+  rcases hb with rfl | rfl | rfl <;> cases i <;> cases w <;> decide
+
+/-- `user_b2b_beats`: for an in-tree user of the module (`AXI2AXILite`, and `AXI2Wishbone` through it) with the
+    capability set it passes (`userCaps`, compared with the real module on every run), every run in which the offered
+    bursts are FIXED, INCR or WRAP and legal **for their own type** yields exactly the A3.4.1 beats of that type -
+    `b2b_beats` with `effBurst` eliminated.  Full statement for ANY capability set is false: see the witness below;
+    the hypothesis that makes it true is `caps.serves r.burst`, which `userCaps` satisfies for all three types. -/
+theorem user_b2b_beats (user : String) (caps : Caps) (hu : userCaps user = some caps) (aw : Nat) (haw : 12 ≤ aw)
+    (ins : List SysIn)
+    (hlegal : ∀ r ∈ sysOffered caps aw sysInit ins,
+      (r.burst = BURST_FIXED ∨ r.burst = BURST_INCR ∨ r.burst = BURST_WRAP) ∧ Legal aw r r.burst) :
+    (∀ b, b = BURST_FIXED ∨ b = BURST_INCR ∨ b = BURST_WRAP → caps.serves b = true) ∧
+    sysBeats caps aw sysInit ins
+      = (sysConsumed caps aw sysInit ins).flatMap
+          (fun r => (List.range (r.len + 1)).map fun j => (specBeat r r.burst j).atSize r.size)
+        ++ sysPending caps ((sys caps aw).run ins) := by
+  have hc : caps = Caps.all := by
+    unfold userCaps at hu
+    split at hu
+    · exact (Option.some.inj hu).symm
+    · cases hu
+  subst hc
+  have heff : ∀ b, b = BURST_FIXED ∨ b = BURST_INCR ∨ b = BURST_WRAP → effBurst Caps.all b = b := by
+    intro b hb; rcases hb with rfl | rfl | rfl <;> decide
+  refine ⟨by intro b hb; rcases hb with rfl | rfl | rfl <;> decide, ?_⟩
+  have hl : ∀ r ∈ sysOffered Caps.all aw sysInit ins, Legal aw r (effBurst Caps.all r.burst) := by
+    intro r hr
+    obtain ⟨h1, h2⟩ := hlegal r hr
+    rw [heff _ h1]; exact h2
+  obtain ⟨h1, h2⟩ := b2b_beats Caps.all aw haw ins hl
+  rw [h1]
+  congr 1
+  apply flatMap_congr'
+  intro r hr
+  have hro : r ∈ sysOffered Caps.all aw sysInit ins := by rw [h2]; exact List.mem_append_left _ hr
+  unfold specBeatsC specPrefixC
+  rw [heff _ (hlegal r hro).1]
+
+/-- non-vacuity: the known users exist and serve all three types. -/
+example : userCaps "axi2axilite" = some Caps.all ∧ userCaps "axi2wishbone" = some Caps.all ∧
+    Caps.all.serves BURST_WRAP = true := by decide
+
+/-- Negative witness for a reduced capability set (what a user built with `{FIXED, INCR}` would do): the legal WRAP
+    burst of 4 × 4 bytes from 0x8 is expanded as FIXED - four beats at container 2 instead of 2, 3, 0, 1. -/
+example :
+    let caps : Caps := ⟨true, false⟩
+    let w : Req := ⟨0x8, 3, 2, BURST_WRAP, 1⟩
+    let ins : List SysIn := [⟨true, w, true⟩, ⟨false, w, true⟩, ⟨false, w, true⟩, ⟨false, w, true⟩]
+    caps.serves BURST_WRAP = false ∧ Legal 12 w BURST_WRAP ∧
+    (sysBeats caps 12 sysInit ins).map (·.addr) = [2, 2, 2, 2] ∧
+    (List.range 4).map (fun j => ((specBeat w BURST_WRAP j).atSize 2).addr) = [2, 3, 0, 1] := by decide
 
 /-! ### Width converters: boundary of the byte-preserving region, both sides -/
 
